@@ -64,7 +64,7 @@ def run_scenarios(job):
     # absolute paths into some state (relocation fingerprint), a moved copy would not be the same workspace
     W = os.path.join(base, "w")
     saved = os.path.join(base, "saved")
-    sim0 = bs.Sim(W, job["repo"])
+    sim0 = bs.Sim(W, job["repo"], job["deadline"] + 20)
     rec["root"] = W
     known = set()
     clean_cache = {}
@@ -72,7 +72,7 @@ def run_scenarios(job):
     def clean_build(proj):
         k = bs.json.dumps(proj, sort_keys=True)
         if k not in clean_cache:
-            simB = bs.Sim(os.path.join(base, "clean%d" % len(clean_cache)), job["repo"])
+            simB = bs.Sim(os.path.join(base, "clean%d" % len(clean_cache)), job["repo"], job["deadline"] + 20)
             bs.render(proj, simB.root)
             resB = simB.invoke(develop, ["p0"] + bs.defines_argv(proj))
             snaps = {}
@@ -208,6 +208,8 @@ def run_scenarios(job):
                     if p in resF["dump"]["steps"] and p not in touched:
                         sc["false_uptodate"].append(p)
             rec["scenarios"].append(sc)
+    except bs.OutOfTime:
+        rec["truncated"] = True
     finally:
         bs.shutdown_servers()
         if not job.get("keep"):
